@@ -47,6 +47,7 @@ type RootResult struct {
 	CoverWitness map[string]*Witness
 	Funcs        map[string]bool
 	RaceChecks   int
+	CrossChecked, CrossDisagree int
 	mu           sync.Mutex
 	pending      int
 }
@@ -70,6 +71,7 @@ type Explorer struct {
 	statsMu           sync.Mutex
 	verbose           bool
 	stopOnFail        bool
+	crossRate         int // 0: off; n: every n-th discharged obligation is re-asked on z3-new
 }
 
 func (x *Explorer) Run() {
@@ -96,10 +98,16 @@ func (x *Explorer) Run() {
 				return
 			}
 			defer sol.Close()
-			var alt *Solver
+			var alt, cross *Solver
+			if x.crossRate > 0 {
+				cross, _ = NewSolver("z3-new", x.timeoutMs)
+			}
 			defer func() {
 				if alt != nil {
 					alt.Close()
+				}
+				if cross != nil {
+					cross.Close()
 				}
 				x.statsMu.Lock()
 				x.stats.Sat += sol.stats.Sat
@@ -157,7 +165,7 @@ func (x *Explorer) Run() {
 					if alt == nil {
 						alt, _ = NewSolver("cvc5", x.timeoutMs)
 					}
-					pr = runPath(x.P, sol, alt, rr.Root, it.prefix, wantW, wantP, covered, x.verbose)
+					pr = runPath(x.P, sol, alt, cross, x.crossRate, rr.Root, it.prefix, wantW, wantP, covered, x.verbose)
 				}
 
 				mu.Lock()
@@ -178,6 +186,8 @@ func (x *Explorer) Run() {
 					rr.Asserts += pr.Asserts
 					rr.AssertsFold += pr.AssertsFold
 					rr.RaceChecks += pr.RaceChecks
+					rr.CrossChecked += pr.CrossChecked
+					rr.CrossDisagree += pr.CrossDisagree
 					for f := range pr.FuncsSeen {
 						rr.Funcs[f] = true
 					}
